@@ -2073,7 +2073,7 @@ def translate_custom(text, cfg, known_all=None, err_mode=False):
     if known_all:
         for key, fi in known_all.items():
             known.setdefault(key, fi)
-    tr = Tr(cfg, {}, known)
+    tr = Tr(cfg, rs2coq.constants_of(text), known)
     tr.info = info
     tr.err_mode = err_mode
     tr.types = dict(cfg.get("coq_types", {}))
@@ -2142,7 +2142,7 @@ def _generate(repo, base, force):
             names = set(c["coq"] for c in FUNCS2)
             newbase[cfg["coq"]] = {"code": code, "params": info.params, "kind": info.kind, "rust_ret": info.rust_ret,
                                    "calls": sorted(n for n in set(re.findall(r"gen_[A-Za-z0-9_]+", code)) if n in names and n != cfg["coq"])}
-        except (Unsupported, Impure, OSError, ValueError, KeyError, IndexError, AttributeError, TypeError, RecursionError) as ex:
+        except Exception as ex:      # whatever goes wrong while translating is a gap of the translator, never a verdict
             failed[cfg["coq"]] = "%s: %s" % (type(ex).__name__, ex)
             fb = base.get(cfg["coq"])
             if fb is None:
@@ -2161,7 +2161,7 @@ def _generate(repo, base, force):
             chunks.append("(* src/client/flow.rs :: %s :: fn %s (decision skeleton) *)\n%s\n" % (cfg["impl"].split("Flow")[-1], cfg["rust"], code))
             done.append(cfg["coq"])
             newbase[cfg["coq"]] = {"code": code, "params": [], "kind": "skeleton", "rust_ret": "", "calls": []}
-        except (Unsupported, Impure, OSError, ValueError, KeyError, IndexError, AttributeError, TypeError, RecursionError) as ex:
+        except Exception as ex:      # whatever goes wrong while translating is a gap of the translator, never a verdict
             failed[cfg["coq"]] = "%s: %s" % (type(ex).__name__, ex)
             fb = base.get(cfg["coq"])
             if fb is None:
@@ -2181,7 +2181,7 @@ def _generate(repo, base, force):
             if cfg.get("register"):
                 known[(None, cfg.get("register_as", cfg["rust"]))] = FnInfo(cfg["coq"], [(n, k, t) for n, k, t, _ in cfg["params"]], cfg.get("kind", "res"), rust_ret=cfg["rust_ret"])
             newbase[cfg["coq"]] = {"code": code, "params": [], "kind": "flags", "rust_ret": "", "calls": []}
-        except (Unsupported, Impure, OSError, ValueError, KeyError, IndexError, AttributeError, TypeError, RecursionError) as ex:
+        except Exception as ex:      # whatever goes wrong while translating is a gap of the translator, never a verdict
             failed[cfg["coq"]] = "%s: %s" % (type(ex).__name__, ex)
             fb = base.get(cfg["coq"])
             if fb is None:
